@@ -24,6 +24,13 @@
   IndexExpr                         Rbrack                          Expr.pos             Rbrack + 1
   ExprArg                           —                               Expr.pos             Expr.end
   SubscriptSpecifierKeyword         KeywordPos Rparen               KeywordPos           Rparen + 1
+  CaseExpr                          Case EndPos                     Case                 EndPos + 3
+  CaseWhen                          When                            When                 Then.end
+  CaseElse                          Else                            Else                 Expr.end
+  IfExpr                            If Rparen                       If                   Rparen + 1
+  ArrayLiteral                      Array (= InvalidPos) Lbrack Rbrack   Array || Lbrack = Lbrack   Rbrack + 1
+  CastExpr                          Cast Rparen                     Cast                 Rparen + 1
+  NamedType                         —                               Path[0].pos          Path[$].end
 
   `PExpr` has the shape of `MF.Expr.Expr` (the `InCondition` / `SubscriptSpecifier` nodes are flattened into their
   parent exactly as there), `erase : PExpr → Expr` forgets the positions.  `nodesP` lists ALL Go nodes of a tree in
@@ -87,9 +94,25 @@ inductive PExpr
   | sel (e : PExpr) (id : PIdent)
   /-- `IndexExpr{Rbrack, Expr, Index}`; `kw = none`: `ExprArg{Expr}`; `kw = some w`: `SubscriptSpecifierKeyword` -/
   | index (rbrack : Nat) (e : PExpr) (kw : Option PKw) (i : PExpr)
+  /-- `CaseExpr{Case, EndPos, Expr, Whens = CaseWhen{When, Cond, Then} :: more, Else}` -/
+  | caseE (casePos endPos : Nat) (operand : POExpr) (whenPos : Nat) (cond then_ : PExpr) (more : PWhens) (els : POExpr)
+  /-- `IfExpr{If, Rparen, Expr, TrueResult, ElseResult}` -/
+  | ifE (ifPos rparen : Nat) (c t e : PExpr)
+  /-- `ArrayLiteral{Array: InvalidPos, Lbrack, Rbrack, Type: nil, Values}` -/
+  | array (lbrack rbrack : Nat) (values : PExprs)
+  /-- `CastExpr{Cast, Rparen, Safe: false, Expr, Type: NamedType{Path}}` -/
+  | cast (castPos rparen : Nat) (e : PExpr) (typePath : List PIdent)
 inductive PExprs
   | nil
   | cons (e : PExpr) (es : PExprs)
+/-- further `CaseWhen{When, Cond, Then}` nodes -/
+inductive PWhens
+  | nil
+  | cons (whenPos : Nat) (cond then_ : PExpr) (ws : PWhens)
+/-- an optional expression; `kwPos` is `CaseElse.Else` for the ELSE clause and 0 (no such field) for the operand of CASE -/
+inductive POExpr
+  | none
+  | some (kwPos : Nat) (e : PExpr)
 end
 
 instance : Inhabited PExpr := ⟨.null 0⟩
@@ -123,15 +146,29 @@ def erase : PExpr → Expr
   | .inUnnest not e _ _ a => .inUnnest not (erase e) (erase a)
   | .sel e id => .sel (erase e) id.name
   | .index _ e kw i => .index (erase e) (kw.map PKw.erase) (erase i)
+  | .caseE _ _ o _ c t ws el => .caseE (eraseO o) (erase c) (erase t) (eraseW ws) (eraseO el)
+  | .ifE _ _ c t e => .ifE (erase c) (erase t) (erase e)
+  | .array _ _ es => .array (erases es)
+  | .cast _ _ e path => .cast (erase e) (path.map (·.name))
 def erases : PExprs → Exprs
   | .nil => .nil
   | .cons e es => .cons (erase e) (erases es)
+def eraseW : PWhens → Whens
+  | .nil => .nil
+  | .cons _ c t ws => .cons (erase c) (erase t) (eraseW ws)
+def eraseO : POExpr → OExpr
+  | .none => .none
+  | .some _ e => .some (erase e)
 end
 
 /-! ## `Pos()` / `End()` (ast/pos.go) -/
 
 /-- `len("TRUE")` / `len("FALSE")`: `ifThenElse(b, 4, 5)` -/
 def boolLen (b : Bool) : Nat := if b then 4 else 5
+
+/-- `Pos()` / `End()` of a `NamedType` -/
+def posCT (path : List PIdent) : Nat := (path.head?.map (·.namePos)).getD 0
+def endCT (path : List PIdent) : Nat := (path.getLast?.map (·.nameEnd)).getD 0
 
 /-- `Pos()` -/
 def posP : PExpr → Nat
@@ -154,6 +191,10 @@ def posP : PExpr → Nat
   | .inUnnest _ e _ _ _ => posP e
   | .sel e _ => posP e
   | .index _ e _ _ => posP e
+  | .caseE p _ _ _ _ _ _ _ => p
+  | .ifE p _ _ _ _ => p
+  | .array lb _ _ => lb         -- posChoice(Array, Lbrack) with Array = InvalidPos
+  | .cast p _ _ _ => p
 
 /-- `End()` -/
 def endP : PExpr → Nat
@@ -176,6 +217,10 @@ def endP : PExpr → Nat
   | .inUnnest _ _ _ rp _ => rp + 1      -- InExpr.End = Right.End = UnnestInCondition.Rparen + 1
   | .sel _ id => id.nameEnd
   | .index rb _ _ _ => rb + 1
+  | .caseE _ ep _ _ _ _ _ _ => ep + 3
+  | .ifE _ rp _ _ _ => rp + 1
+  | .array _ rb _ => rb + 1
+  | .cast _ rp _ _ => rp + 1
 
 /-- `(Pos(), End())` -/
 def spanP (e : PExpr) : Nat × Nat := (posP e, endP e)
@@ -186,6 +231,16 @@ def spansP : PExprs → List (Nat × Nat)
   | .nil => []
   | .cons e es => spanP e :: spansP es
 
+/-- `(Pos(), End())` of the `CaseWhen` nodes -/
+def spansW : PWhens → List (Nat × Nat)
+  | .nil => []
+  | .cons wp _ t ws => (wp, endP t) :: spansW ws
+
+/-- `(Pos(), End())` of the operand of CASE (`kw = false`) or of the `CaseElse` node (`kw = true`), if present -/
+def spanO (kw : Bool) : POExpr → List (Nat × Nat)
+  | .none => []
+  | .some p e => [(if kw then p else posP e, endP e)]
+
 /-! ## all Go nodes of a tree, in preorder -/
 
 /-- one Go node: depth in the tree, struct name, `Pos()`, `End()`, the struct's `token.Pos` fields in declaration
@@ -195,12 +250,17 @@ structure NodeInfo where
   kind : String
   pos : Nat
   «end» : Nat
-  fields : List (String × Nat)
+  /-- `token.InvalidPos` is -1 (`ArrayLiteral.Array` of a literal without the ARRAY keyword) -/
+  fields : List (String × Int)
   kids : List (Nat × Nat)
   deriving DecidableEq, Repr, Inhabited
 
 def identNode (d : Nat) (i : PIdent) : NodeInfo :=
   ⟨d, "Ident", i.namePos, i.nameEnd, [("NamePos", i.namePos), ("NameEnd", i.nameEnd)], []⟩
+
+/-- the `NamedType` node and the `Ident`s of its path -/
+def nodesCT (d : Nat) (path : List PIdent) : List NodeInfo :=
+  ⟨d, "NamedType", posCT path, endCT path, [], path.map PIdent.span⟩ :: path.map (identNode (d + 1))
 
 mutual
 def nodesP : Nat → PExpr → List NodeInfo
@@ -243,9 +303,34 @@ def nodesP : Nat → PExpr → List NodeInfo
       (nodesP (d + 1) e ++
         (⟨d + 1, "SubscriptSpecifierKeyword", w.keywordPos, w.rparen + 1,
             [("KeywordPos", w.keywordPos), ("Rparen", w.rparen)], [spanP i]⟩ :: nodesP (d + 2) i))
+  | d, .caseE cp ep o wp c t ws el =>
+    ⟨d, "CaseExpr", cp, ep + 3, [("Case", cp), ("EndPos", ep)],
+        spanO false o ++ ((wp, endP t) :: (spansW ws ++ spanO true el))⟩ ::
+      (nodesPO false (d + 1) o ++
+        (⟨d + 1, "CaseWhen", wp, endP t, [("When", wp)], [spanP c, spanP t]⟩ ::
+          (nodesP (d + 2) c ++ (nodesP (d + 2) t ++ (nodesPW (d + 1) ws ++ nodesPO true (d + 1) el)))))
+  | d, .ifE ip rp c t e =>
+    ⟨d, "IfExpr", ip, rp + 1, [("If", ip), ("Rparen", rp)], [spanP c, spanP t, spanP e]⟩ ::
+      (nodesP (d + 1) c ++ (nodesP (d + 1) t ++ nodesP (d + 1) e))
+  | d, .array lb rb es =>
+    ⟨d, "ArrayLiteral", lb, rb + 1, [("Array", -1), ("Lbrack", lb), ("Rbrack", rb)], spansP es⟩ :: nodesPs (d + 1) es
+  | d, .cast cp rp e t =>
+    ⟨d, "CastExpr", cp, rp + 1, [("Cast", cp), ("Rparen", rp)], [spanP e, (posCT t, endCT t)]⟩ ::
+      (nodesP (d + 1) e ++ nodesCT (d + 1) t)
 def nodesPs : Nat → PExprs → List NodeInfo
   | _, .nil => []
   | d, .cons e es => nodesP d e ++ nodesPs d es
+/-- the `CaseWhen` nodes (at depth `d`) with their sub-trees -/
+def nodesPW : Nat → PWhens → List NodeInfo
+  | _, .nil => []
+  | d, .cons wp c t ws =>
+    ⟨d, "CaseWhen", wp, endP t, [("When", wp)], [spanP c, spanP t]⟩ ::
+      (nodesP (d + 1) c ++ (nodesP (d + 1) t ++ nodesPW d ws))
+/-- the operand of CASE at depth `d` (`kw = false`), or the `CaseElse` node at depth `d` with its expression -/
+def nodesPO (kw : Bool) : Nat → POExpr → List NodeInfo
+  | _, .none => []
+  | d, .some p e =>
+    if kw then ⟨d, "CaseElse", p, endP e, [("Else", p)], [spanP e]⟩ :: nodesP (d + 1) e else nodesP d e
 end
 
 /-! ## the sub-expressions of a tree (the nodes that are `PExpr`s: every Go `ast.Expr` node except the `Ident`s that
@@ -263,10 +348,21 @@ def subsP : PExpr → List PExpr
   | .inUnnest n e un rp a => .inUnnest n e un rp a :: (subsP e ++ subsP a)
   | .sel e id => .sel e id :: subsP e
   | .index rb e kw i => .index rb e kw i :: (subsP e ++ subsP i)
+  | .caseE cp ep o wp c t ws el =>
+    .caseE cp ep o wp c t ws el :: (subsPO o ++ (subsP c ++ (subsP t ++ (subsPW ws ++ subsPO el))))
+  | .ifE ip rp c t e => .ifE ip rp c t e :: (subsP c ++ (subsP t ++ subsP e))
+  | .array lb rb es => .array lb rb es :: subsPs es
+  | .cast cp rp e t => .cast cp rp e t :: subsP e
   | e => [e]
 def subsPs : PExprs → List PExpr
   | .nil => []
   | .cons e es => subsP e ++ subsPs es
+def subsPW : PWhens → List PExpr
+  | .nil => []
+  | .cons _ c t ws => subsP c ++ (subsP t ++ subsPW ws)
+def subsPO : POExpr → List PExpr
+  | .none => []
+  | .some _ e => subsP e
 end
 
 /-! ## moving a tree (for C06: the text of a node, parsed on its own, is the node moved to offset 0) -/
@@ -296,9 +392,20 @@ def shiftP (d : Nat) : PExpr → PExpr
   | .inUnnest n e un rp a => .inUnnest n (shiftP d e) (un - d) (rp - d) (shiftP d a)
   | .sel e id => .sel (shiftP d e) (id.shift d)
   | .index rb e kw i => .index (rb - d) (shiftP d e) (kw.map (PKw.shift d)) (shiftP d i)
+  | .caseE cp ep o wp c t ws el =>
+    .caseE (cp - d) (ep - d) (shiftPO d o) (wp - d) (shiftP d c) (shiftP d t) (shiftPW d ws) (shiftPO d el)
+  | .ifE ip rp c t e => .ifE (ip - d) (rp - d) (shiftP d c) (shiftP d t) (shiftP d e)
+  | .array lb rb es => .array (lb - d) (rb - d) (shiftPs d es)
+  | .cast cp rp e path => .cast (cp - d) (rp - d) (shiftP d e) (path.map (PIdent.shift d))
 def shiftPs (d : Nat) : PExprs → PExprs
   | .nil => .nil
   | .cons e es => .cons (shiftP d e) (shiftPs d es)
+def shiftPW (d : Nat) : PWhens → PWhens
+  | .nil => .nil
+  | .cons wp c t ws => .cons (wp - d) (shiftP d c) (shiftP d t) (shiftPW d ws)
+def shiftPO (d : Nat) : POExpr → POExpr
+  | .none => .none
+  | .some p e => .some (p - d) (shiftP d e)
 end
 
 /-! ## results, leaf productions -/
@@ -324,6 +431,23 @@ inductive PIdxSpec
 def PIdxSpec.mk (rbrack : Nat) (l : PExpr) : PIdxSpec → PExpr
   | .plain e => .index rbrack l none e
   | .kw w e => .index rbrack l (some w) e
+
+/-- `ast.Ident` of the type model as `PIdent` -/
+def ofTyIdent (i : TypeP.Ident) : PIdent := ⟨i.namePos, i.nameEnd, i.name⟩
+
+/-- `castType` with positions (the type model `MF.TypeP.parseType` builds positioned nodes) -/
+def castTypeP (f : Nat) (ts : List Token) : Res (List PIdent × List Token) :=
+  match TypeP.cur ts with
+  | .ident =>
+    if TypeP.lookaheadSimpleType ts then .outside
+    else
+      match TypeP.parseType f ts with
+      | .ok (.named path, rest) => .ok (path.map ofTyIdent, rest)
+      | .ok (_, _) => .outside
+      | .raise => .raise
+      | .outOfFuel => .outOfFuel
+  | .array | .struct_ => .outside
+  | _ => .raise
 
 /-- `p.expect(kind)` followed by building a leaf from the consumed token -/
 def expectThenP (k : TK) (ts : List Token) (mk : Token → PExpr) : PPR :=
@@ -601,8 +725,11 @@ def parsePLit : Nat → List Token → PPR
     | .string => parsePStringLiteral ts
     | .bytes => parsePBytesLiteral ts
     | .param => parsePParam ts
+    | .case_ => parsePCaseExpr f ts
+    | .if_ => parsePIfExpr f ts
+    | .cast => parsePCastExpr f ts
     | .litStart => .outside
-    | .lbrack => .outside
+    | .lbrack => parsePSimpleArrayLiteral f ts
     | .lparen => parsePParenExpr f ts
     | .ident => parsePLitIdent ts
     | _ => .raise
@@ -618,6 +745,88 @@ def parsePParenExpr : Nat → List Token → PPR
         | .rparen => .ok (.paren (hd ts).pos (hd p.2).pos p.1, p.2.tail)
         | .comma => .outside
         | _ => .raise
+
+/-- `lbrack = p.expect("[").Pos`, `rbrack = p.expect("]").Pos` -/
+def parsePSimpleArrayLiteral : Nat → List Token → PPR
+  | 0, _ => .outOfFuel
+  | f + 1, ts =>
+    if cur ts = .lbrack then
+      if cur ts.tail = .rbrack then .ok (.array (hd ts).pos (hd ts.tail).pos .nil, ts.tail.tail)
+      else
+        (parsePExpr f ts.tail).bind fun p =>
+          (inListLoopP f p.2).bind fun q =>
+            if cur q.2 = .rbrack then .ok (.array (hd ts).pos (hd q.2).pos (.cons p.1 q.1), q.2.tail) else .raise
+    else .raise
+
+/-- `cast = p.expect("CAST").Pos`, `rparen := p.expect(")").Pos` -/
+def parsePCastExpr : Nat → List Token → PPR
+  | 0, _ => .outOfFuel
+  | f + 1, ts =>
+    if cur ts = .cast then
+      if cur ts.tail = .lparen then
+        (parsePExpr f ts.tail.tail).bind fun p =>
+          if cur p.2 = .as_ then
+            (castTypeP f p.2.tail).bind fun t =>
+              if cur t.2 = .rparen then .ok (.cast (hd ts).pos (hd t.2).pos p.1 t.1, t.2.tail) else .raise
+          else .raise
+      else .raise
+    else .raise
+
+/-- `pos := p.expect("CASE").Pos`, `end := p.expect("END").Pos` -/
+def parsePCaseExpr : Nat → List Token → PPR
+  | 0, _ => .outOfFuel
+  | f + 1, ts =>
+    if cur ts = .case_ then
+      (if cur ts.tail = .when_ then .ok (POExpr.none, ts.tail)
+        else (parsePExpr f ts.tail).bind fun p => .ok (POExpr.some 0 p.1, p.2)).bind fun o =>
+      (parsePCaseWhen f o.2).bind fun w =>
+      (caseWhenLoopP f w.2).bind fun ws =>
+      (if cur ws.2 = .else_ then (parsePCaseElse f ws.2).bind fun p => .ok (POExpr.some (hd ws.2).pos p.1, p.2)
+        else .ok (POExpr.none, ws.2)).bind fun el =>
+      if cur el.2 = .end_ then
+        .ok (.caseE (hd ts).pos (hd el.2).pos o.1 w.1.1 w.1.2.1 w.1.2.2 ws.1 el.1, el.2.tail)
+      else .raise
+    else .raise
+
+def caseWhenLoopP : Nat → List Token → Res (PWhens × List Token)
+  | 0, _ => .outOfFuel
+  | f + 1, ts =>
+    match cur ts with
+    | .when_ =>
+      (parsePCaseWhen f ts).bind fun w =>
+        (caseWhenLoopP f w.2).bind fun q => .ok (.cons w.1.1 w.1.2.1 w.1.2.2 q.1, q.2)
+    | _ => .ok (.nil, ts)
+
+/-- `pos := p.expect("WHEN").Pos`; returns `(When, Cond, Then)` -/
+def parsePCaseWhen : Nat → List Token → Res ((Nat × PExpr × PExpr) × List Token)
+  | 0, _ => .outOfFuel
+  | f + 1, ts =>
+    if cur ts = .when_ then
+      (parsePExpr f ts.tail).bind fun c =>
+        if cur c.2 = .then_ then (parsePExpr f c.2.tail).bind fun t => .ok (((hd ts).pos, c.1, t.1), t.2) else .raise
+    else .raise
+
+/-- `parseCaseElse`; the position of ELSE is read by the caller from the same token -/
+def parsePCaseElse : Nat → List Token → PPR
+  | 0, _ => .outOfFuel
+  | f + 1, ts => if cur ts = .else_ then parsePExpr f ts.tail else .raise
+
+/-- `pos := p.expect("IF").Pos`, `rparen := p.expect(")").Pos` -/
+def parsePIfExpr : Nat → List Token → PPR
+  | 0, _ => .outOfFuel
+  | f + 1, ts =>
+    if cur ts = .if_ then
+      if cur ts.tail = .lparen then
+        (parsePExpr f ts.tail.tail).bind fun c =>
+          if cur c.2 = .comma then
+            (parsePExpr f c.2.tail).bind fun t =>
+              if cur t.2 = .comma then
+                (parsePExpr f t.2.tail).bind fun e =>
+                  if cur e.2 = .rparen then .ok (.ifE (hd ts).pos (hd e.2).pos c.1 t.1 e.1, e.2.tail) else .raise
+              else .raise
+          else .raise
+      else .raise
+    else .raise
 
 end
 
